@@ -6,7 +6,7 @@ from pyvc import smt
 from pyvc.smt import V
 
 
-def counting(ctx, name, keyterm, witness=False):
+def counting(ctx, name, keyterm, witness=False, tail=False):
     """declare C_name with its axioms for the key sequence keyterm(i); returns the z3 function"""
     C = z3.Function(name, V, z3.IntSort(), z3.IntSort())
     kap, m, i, j = z3.Const('kap!' + name, V), smt.fresh_int('m'), smt.fresh_int('i'), smt.fresh_int('j')
@@ -20,4 +20,10 @@ def counting(ctx, name, keyterm, witness=False):
         ctx.facts.append(z3.ForAll([kap, m, j], z3.Implies(z3.And(1 <= j, j < m, keyterm(j) == kap), C(kap, m) > 0)))
         ctx.facts.append(z3.ForAll([kap, m], z3.Implies(z3.And(m >= 1, C(kap, m) > 0),
                                                         z3.And(1 <= wit(kap, m), wit(kap, m) < m, keyterm(wit(kap, m)) == kap))))
+    if tail:
+        # C(k, n) > C(k, j)  ==>  some row in [j, n) has key k   (proved by induction in C07.cnt.lemmas)
+        tw = z3.Function('twit!' + name, V, z3.IntSort(), z3.IntSort(), z3.IntSort())
+        n_ = smt.fresh_int('n')
+        ctx.facts.append(z3.ForAll([kap, j, n_], z3.Implies(z3.And(1 <= j, j <= n_, C(kap, n_) > C(kap, j)),
+                                                           z3.And(j <= tw(kap, j, n_), tw(kap, j, n_) < n_, keyterm(tw(kap, j, n_)) == kap))))
     return C
